@@ -11,18 +11,20 @@ MUTATIONS = [
 def run(ctx):
     ctx.trusted = ['Coq 8.16.1 kernel (vm_compute on the finite tables)',
                    'translator T5 (tools/pyxsim.py: run() of python/package/multitensor.pyx, Cython-only syntax removed, executed under recording stand-ins for numpy / the containers / the library for all 16 combinations -> GenPyx.v) and T3 (multitensor.cpp -> GenCli.v, regular expressions); T5 is self-tested on every run by two built-in mutations that must break the theorems',
-                   'NO runtime correspondence: the Cython extension is not built in this sandbox (no Cython); what is verified is the behaviour of the Python-level control flow of run() under stand-ins, not the compiled extension']
+                   'command line side of the agreement: the real binary, run on all 8 selections with the options in random order, against the library variant the table names (always, not only when T3 falls back)',
+                   'NO runtime correspondence for the Python side: the Cython extension is not built in this sandbox (no Cython); what is verified is the behaviour of the Python-level control flow of run() under stand-ins, not the compiled extension']
     ctx.prove()
-    # the command line's table (GenCli.v, T3) is the other side of "agrees with the command line's": when T3 fell back to the reference
-    # table, the real binary is run on all 8 variants and compared with the library variants the reference table names
-    if any(g == 'GenCli.v' for g, _ in getattr(ctx, 'advisory', [])):
+    # the command line's table (GenCli.v, T3) is the other side of "agrees with the command line's".  T3 reads the selection switch only: how the
+    # options become the three booleans, and what the control flow around the switch does, it does not see.  So the real binary is ALWAYS run on all
+    # 8 selections (options in random order) and compared with the library variant the reference table names for those arguments.
+    if True:
         import gen, cli
         gen.INTEGRAL[0] = True
         if ctx.build():
             wd = vf.workdir()
             metas, lines, cid = [], [], 700000
             for variant in gen.VARIANTS:
-                for j in range(2):
+                for j in range(ctx.budget(2, 12)):
                     line, m = cli.make_case(ctx.rng.fork('w%d' % cid), cid, wd, variant=variant)
                     lines.append(line)
                     metas.append(m)
